@@ -3,6 +3,7 @@
 package pipeline
 
 import (
+	"github.com/buildkite/go-pipeline/warning"
 	"github.com/buildkite/go-pipeline/ordered"
 	"gopkg.in/yaml.v3"
 )
@@ -134,4 +135,81 @@ func vpH_c08_yaml_order() {
 		inner := cfg.Content[3]
 		vpAssert(inner.Kind == yaml.MappingNode && len(inner.Content) == 4 && inner.Content[0].Value == "z" && inner.Content[2].Value == "a", "YAML output keeps deeper nested mappings in document order")
 	}
+}
+
+func init() { vpRegister("c08_fallback", vpH_c08_fallback) }
+
+// A step that looks like a command step or a group but has an ill-typed field
+// is kept verbatim as an unknown step: whatever the typed decoding did before
+// it gave up, the mapping - and every mapping nested in it - comes out in
+// document order. The keys stand in any order, so the ill-typed field is
+// reached before or after the others.
+func vpH_c08_fallback() {
+	c1 := vpStrUpTo(1, "a-b")
+	var cmdKey string
+	var cmdVal any
+	switch vpInt(0, 2) {
+	case 0:
+		cmdKey, cmdVal = "command", c1
+	case 1:
+		cmdKey, cmdVal = "commands", []any{c1, "d"}
+	default:
+		cmdKey, cmdVal = "command", []any{c1, "d"}
+	}
+	matrix := vpMapOf("setup", []any{"m"}, "zeta", 1, "adjustments", []any{vpMapOf("with", "w", "soft_fail", true, "aa", 1)}, "alpha", 2)
+	badKey, badVal := "cache", any(42)
+	group := vpBool()
+	if vpBool() {
+		badKey, badVal = "plugins", 42
+	}
+	keys := []string{cmdKey, "matrix", "label", badKey}
+	vals := []any{cmdVal, matrix, "l", badVal}
+	if group { // a group whose children hold a nested group with extra keys, then an entry no step can be
+		keys = []string{"group", "steps", "label", "zz"}
+		vals = []any{"g", []any{vpMapOf("group", "in", "zeta", 1, "steps", []any{vpMapOf("command", "k", "yy", 1, "label", "x")}, "alpha", 2), 42}, "l", 1}
+	}
+	// any order of the four keys
+	perm := []int{0, 1, 2, 3}
+	for i := 0; i < 3; i++ {
+		j := vpInt(i, 3)
+		perm[i], perm[j] = perm[j], perm[i]
+	}
+	step := ordered.NewMap[string, any](4)
+	for _, i := range perm {
+		step.Set(keys[i], vals[i])
+	}
+	doc := vpMapOf("steps", []any{step})
+	p := new(Pipeline)
+	err := p.UnmarshalOrdered(doc)
+	if err != nil && !warning.Is(err) {
+		return // a hard failure is allowed; order is about what is kept
+	}
+	if len(p.Steps) != 1 {
+		return
+	}
+	if _, isUnknown := p.Steps[0].(*UnknownStep); !isUnknown {
+		return
+	}
+	b, merr := p.MarshalJSON()
+	vpAssert(merr == nil, "the pipeline marshals")
+	sb, _ := vpJGet(b, "steps")
+	us := vpJElem(sb, 0)
+	vpAssert(vpJKind(us) == 5 && vpJLen(us) == 4, "the unknown step holds the four keys that were written")
+	for n, i := range perm {
+		vpAssert(vpJKey(us, n) == keys[i], "a step kept verbatim after a failed typed decoding has its keys in document order")
+	}
+	if group {
+		kids, _ := vpJGet(us, "steps")
+		in := vpJElem(kids, 0)
+		vpAssert(vpJLen(in) == 4 && vpJKey(in, 0) == "group" && vpJKey(in, 1) == "zeta" && vpJKey(in, 2) == "steps" && vpJKey(in, 3) == "alpha", "a nested group inside it keeps document order")
+		gk, _ := vpJGet(in, "steps")
+		leaf := vpJElem(gk, 0)
+		vpAssert(vpJLen(leaf) == 3 && vpJKey(leaf, 0) == "command" && vpJKey(leaf, 1) == "yy" && vpJKey(leaf, 2) == "label", "... and so does a step nested in that")
+		return
+	}
+	mb, _ := vpJGet(us, "matrix")
+	vpAssert(vpJLen(mb) == 4 && vpJKey(mb, 0) == "setup" && vpJKey(mb, 1) == "zeta" && vpJKey(mb, 2) == "adjustments" && vpJKey(mb, 3) == "alpha", "a mapping nested in it (decoded into a typed field before the failure) keeps document order")
+	ab, _ := vpJGet(mb, "adjustments")
+	a0 := vpJElem(ab, 0)
+	vpAssert(vpJLen(a0) == 3 && vpJKey(a0, 0) == "with" && vpJKey(a0, 1) == "soft_fail" && vpJKey(a0, 2) == "aa", "... at every depth")
 }
